@@ -217,6 +217,35 @@ def check_call_order(repo, cls, meth, first, then):
     return [dict(name=name, kind="trace", result="discharged" if ok else "undischarged", backend="static", seconds=0.0, reason=None if ok else why)]
 
 
+def check_contains(repo, qualname, label, snippets, kind="ownership"):
+    """Ownership obligation (DESIGN 3.3), decided syntactically: the function contains each of the given expressions /
+    statements (compared after normalisation by ast.unparse), e.g. `return deepcopy(self.metadata)`."""
+    found = repo.find(qualname)
+    name = "%s#%s:%s" % (qualname, kind, label)
+    if found is None:
+        return [dict(name=name, kind=kind, result="undischarged", backend="static", seconds=0.0, reason="function not found")]
+    fdef = found[0]
+    have = set()
+    for n in ast.walk(fdef):
+        if isinstance(n, (ast.expr, ast.stmt)):
+            try:
+                have.add(ast.unparse(n))
+            except Exception:
+                pass
+    missing = []
+    for sn in snippets:
+        try:
+            tree = ast.parse(sn)
+            canon = ast.unparse(tree.body[0].value if isinstance(tree.body[0], ast.Expr) else tree.body[0])
+        except SyntaxError:
+            canon = sn
+        if canon not in have:
+            missing.append(canon)
+    ok = not missing
+    return [dict(name=name, kind=kind, result="discharged" if ok else "undischarged", backend="static", seconds=0.0,
+                 reason=None if ok else "expected (deep-copying) expression not found: %s" % "; ".join(missing))]
+
+
 def run_static(repo, spec):
     kind = spec[0]
     if kind == "inherits":
@@ -227,6 +256,8 @@ def run_static(repo, spec):
         return check_atomic_helper(repo, spec[1], spec[2])
     if kind == "no-inplace":
         return check_no_inplace(repo, spec[1], spec[2], spec[3])
+    if kind == "contains":
+        return check_contains(repo, spec[1], spec[2], spec[3], spec[4] if len(spec) > 4 else "ownership")
     if kind == "order":
         return check_call_order(repo, spec[1], spec[2], spec[3], spec[4])
     raise ValueError(kind)
